@@ -94,6 +94,21 @@ const (
 	S2C = query.DataRequirementSequenceFlagsDirectionServerToClient / query.DataRequirementSequenceFlagsDirection
 )
 
+// literalPrefix returns the literal prefix of the regex that find may use to skip parts of the buffer.
+// Skipping changes what ^ and \b see, and an anchored expression is reported as its literal, so there is none
+// for expressions with assertions.
+func literalPrefix(re *binaryregexp.Regexp, expr string) (string, bool, error) {
+	prefix, complete := re.LiteralPrefix()
+	if prefix != "" {
+		if hasEmptyWidth, err := regexanalysis.HasEmptyWidth(expr); err != nil {
+			return "", false, err
+		} else if hasEmptyWidth {
+			return "", false, nil
+		}
+	}
+	return prefix, complete, nil
+}
+
 func (dcc *dataConditionsContainer) add(cc *query.DataCondition, subQuery string, previousResults map[string]resultData) error {
 	if len(cc.Elements) == 0 {
 		return nil
@@ -286,7 +301,10 @@ func (dcc *dataConditionsContainer) finalize(r *Reader, queryPartIndex int, prev
 			if r.root.regex, err = binaryregexp.Compile(e.Regex); err != nil {
 				return nil, err
 			}
-			prefix, complete := r.root.regex.LiteralPrefix()
+			prefix, complete, err := literalPrefix(r.root.regex, e.Regex)
+			if err != nil {
+				return nil, err
+			}
 			r.root.prefix = []byte(prefix)
 			if complete {
 				r.root.acceptedLength = regexanalysis.AcceptedLengths{
@@ -390,7 +408,10 @@ func (dcc *dataConditionsContainer) finalize(r *Reader, queryPartIndex int, prev
 				if root.regex, err = binaryregexp.Compile(regex); err != nil {
 					return nil, err
 				}
-				prefix, complete := root.regex.LiteralPrefix()
+				prefix, complete, err := literalPrefix(root.regex, regex)
+				if err != nil {
+					return nil, err
+				}
 				root.prefix = []byte(prefix)
 				if complete {
 					root.acceptedLength = regexanalysis.AcceptedLengths{
@@ -712,7 +733,10 @@ func (ps *progressGroup) prepare(r *regex, pIdx int, e *query.DataConditionEleme
 	if p.regex, err = binaryregexp.Compile(expr); err != nil {
 		return p, err
 	}
-	prefix, complete := p.regex.LiteralPrefix()
+	prefix, complete, err := literalPrefix(p.regex, expr)
+	if err != nil {
+		return nil, err
+	}
 	p.prefix = []byte(prefix)
 	if complete {
 		p.acceptedLength = regexanalysis.AcceptedLengths{
